@@ -22,6 +22,7 @@ RULE = ("scenarios = M × backlog × duration class × tasks_limit × queues (+ 
 ASSUMPTIONS = ["overshoot of messages_limit that the Lean runner model reproduces event-for-event is the recorded finding F4; "
                "any other overshoot, loss or stall is a violation"]
 F4 = "F4-messages-limit-checked-only-on-completion"
+F24 = "F24-redis-finish-leaves-fetch-in-flight"
 
 
 def make_scenario(rng: Rng) -> dict:
@@ -93,10 +94,15 @@ def check(run: WorkerRun, model: Model, res: Result, label: str) -> None:
         ok = (was_started and j["id"] in finished and not here) or \
              (not was_started and len(here) == 1 and here[0]["place"] == "simple" and here[0]["tried"] == 0)
         if not ok:
+            delivered = any(e["kind"] == "deliver" and e["id"] == j["id"] for e in run.events)
+            # Redis: taken by the consumer's background fetch loop, never handed to the runner, dropped by finish() (F24)
+            f24 = (sc.get("broker") == "redis" and not delivered and not was_started and len(here) == 1
+                   and here[0]["place"] == "processing" and here[0]["tried"] == 0)
             res.bad("impl", "a message beyond messages_limit was lost, duplicated, left in-flight or counted as retried",
                     case=dict(case, message=j["id"]), observed={"started": was_started, "present": here},
-                    expected="executed and gone, or waiting exactly once with already_tried = 0")
-            break
+                    expected="executed and gone, or waiting exactly once with already_tried = 0", finding=F24 if f24 else None)
+            if not f24:
+                break
 
 
 async def run_on_enqueue(backlog: int, dur: int) -> dict:
